@@ -25,6 +25,12 @@ CLAIMED = {
     "C09": ("4 C09", "bounded exhaustive tables (built-ins x receivers x argument tuples; operators x operand kinds; @for clause subsets) + property-based testing (rapid) with an untyped program generator; oracle: no panic, returns, error line in range",
             "Exploration: every built-in name on receivers of every type with all argument tuples of length 0/1 and pairs over 19 boundary values; every operator on every ordered pair of operand kinds; @for with every subset of clauses absent; random untyped programs over data of every kind (nil pointers, nested unsupported values, invalid UTF-8).",
             "Trusted: recover()-based panic detection and the watchdog. Counts between 10^6 and 2^62 are not generated (memory exhaustion is not a decidable panic); MinInt64/MaxInt64 are.", "exploration"),
+    "C13": ("4 C13", "property-based testing (rapid): single-fault injection into generated valid multi-line templates and template trees, expected line/file known by construction; plus an exhaustive table of fault forms x preceding multi-line token kinds",
+            "Exploration: valid templates (reference interpreter says they render) with text/strings/comments/blocks/headers spanning lines before one single-line fault of each listed kind at a certainly-executed place; trees with page, layout and component for load-time and page-level faults. The reported line (and absolute path) must equal the line counted in the generated source.",
+            "Trusted: the line is computed by counting newlines before a unique marker in the generated source (no lexer involved). The faulty construct is always written on one line, so 'the line its token ends on' is unambiguous; run-time faults inside layout/component files are not asserted (the statement only fixes the path for load-time faults and faults in the page).", "exploration"),
+    "C19": ("4 C19", "bounded exhaustive enumeration of lexeme sequences + property-based testing (rapid) of generated multi-line templates, their prefixes and soups against an independent offset<->(line, column) index",
+            "Exploration: every sequence of <= 3 (quick) / 4 (thorough) lexemes incl. CRLF, multi-line strings/comments, escapes, multi-byte text; generated valid templates with random newlines and their prefixes; soups. For each input: tokens ordered and disjoint, start/end are the first/last byte, the source range is the token's own text, gaps are whitespace or complete comments, EOF just past the last byte, and every byte position is contained in exactly the covering token.",
+            "Trusted: lib/reftext index and escape classification. Inputs containing NUL are excluded (lexer's end marker). After an ILLEGAL token nothing is asserted. The literal of a text token next to the unsettled '\\{{{' overlap is not compared.", "exploration"),
     "C05": ("4 C05", "property-based testing (rapid) + bounded exhaustive enumeration against an independent reference scanner",
             "Exploration: every concatenation of up to k pieces of an adversarial alphabet (exhaustive) plus random longer texts, comment bodies and text runs spliced around blocks, each compared with an independent text-level reference (escape removal, comment elision, passthrough). Shows absence of violations only inside the enumerated bounds; beyond them it is sampling.",
             "Trusted: lib/reftext (scanner written from the statement), Go toolchain, rapid. Cases where the statement is silent (overlapping escapes, terminator overlapping the comment opener) are skipped and counted.", "exploration"),
